@@ -255,12 +255,12 @@ Ltac lens :=
 
 Lemma av_write_size dbg cx v ops :
   av_write dbg cx v = Ok ops -> expr_ok v -> ops_len ops < 2 ^ 64 ->
-  av_size dbg (wc_enc cx) v = Ok (ops_len ops).
+  av_size dbg (wc_enc cx) (wc_lpv cx) v = Ok (ops_len ops).
 Proof.
-  destruct cx as [e be u uoff ents codes line lstr str rng loc]. cbn [wc_enc].
+  destruct cx as [e be u uoff ents codes line lstr str rng loc lpv]. cbn [wc_enc wc_lpv].
   destruct e as [ver fmt asz].
   intros H X B.
-  destruct v; unfold av_write in H; unfold av_size; cbn [wc_enc wc_be wc_line wc_loc wc_rng wc_str wc_lstr] in H;
+  destruct v; unfold av_write in H; unfold av_size; cbn [wc_enc wc_be wc_line wc_loc wc_rng wc_str wc_lstr wc_lpv] in H;
     revert H; unfold_asserts; case_ver ver; destruct fmt; asserts; intros H.
   all: try (exfalso; lia).
   all: try (injection H as <-; rewrite ?ops_len_wb, ?ops_len_nil, ?enc_un_blen; reflexivity).
@@ -344,11 +344,11 @@ Lemma die_expr_ok_unfold id tag sib attrs ch :
 Proof. reflexivity. Qed.
 
 Section lists_of_dies.
-  Variables (dbg : bool) (e : encoding) (cx : wcx).
+  Variables (dbg : bool) (e : encoding) (lpv : N) (cx : wcx).
   Fixpoint calc_list (l : list die) (s : cst) : res cst :=
     match l with
     | [] => Ok s
-    | c :: r => let* s' := calc dbg e c s in calc_list r s'
+    | c :: r => let* s' := calc dbg e lpv c s in calc_list r s'
     end.
   Fixpoint write_list (l : list die) (p : N) : res (list wop) :=
     match l with
@@ -360,19 +360,19 @@ Section lists_of_dies.
     end.
 End lists_of_dies.
 
-Lemma calc_unfold dbg e id tag sib attrs ch st :
-  calc dbg e (Die id tag sib attrs ch) st =
+Lemma calc_unfold dbg e lpv id tag sib attrs ch st :
+  calc dbg e lpv (Die id tag sib attrs ch) st =
   (let* ents := set_nth id (cs_off st) (cs_entries st) in
    let* ab := die_abbrev dbg e (Die id tag sib attrs ch) in
    let (code, tab) := abbrev_add (cs_abbrevs st) ab in
    let* codes := set_nth id code (cs_codes st) in
-   let* sz := die_size dbg e (Die id tag sib attrs ch) code in
+   let* sz := die_size dbg e lpv (Die id tag sib attrs ch) code in
    let* off := chk_add 64 dbg (cs_off st) sz in
    let st1 := mkCst off ents tab codes in
    match ch with
    | [] => Ok st1
    | _ =>
-       let* st2 := calc_list dbg e ch st1 in
+       let* st2 := calc_list dbg e lpv ch st1 in
        let* off2 := chk_add 64 dbg (cs_off st2) 1 in
        Ok (mkCst off2 (cs_entries st2) (cs_abbrevs st2) (cs_codes st2))
    end).
@@ -408,7 +408,7 @@ Proof. reflexivity. Qed.
 Lemma attrs_write_size dbg cx : forall attrs acc aops,
   attrs_write dbg cx attrs = Ok aops -> Forall (fun p => expr_ok (snd p)) attrs ->
   acc + ops_len aops < 2 ^ 64 ->
-  attrs_size dbg (wc_enc cx) acc attrs = Ok (acc + ops_len aops).
+  attrs_size dbg (wc_enc cx) (wc_lpv cx) acc attrs = Ok (acc + ops_len aops).
 Proof.
   induction attrs as [|[n v] r IH]; intros acc aops H X B; cbn [attrs_write attrs_size] in *.
   - injection H as <-. rewrite ops_len_nil. f_equal. lia.
@@ -423,7 +423,7 @@ Lemma die_size_eq dbg cx id tag sib attrs ch code cb aops :
   write_uleb128 code = Ok cb -> attrs_write dbg cx attrs = Ok aops ->
   Forall (fun p => expr_ok (snd p)) attrs ->
   UnitWr.blen cb + (if sib && has_kids ch then wsz (wc_enc cx) else 0) + ops_len aops < 2 ^ 64 ->
-  die_size dbg (wc_enc cx) (Die id tag sib attrs ch) code =
+  die_size dbg (wc_enc cx) (wc_lpv cx) (Die id tag sib attrs ch) code =
   Ok (UnitWr.blen cb + (if sib && has_kids ch then wsz (wc_enc cx) else 0) + ops_len aops).
 Proof.
   intros C A X B. unfold die_size. rewrite <- (write_uleb128_len _ _ C).
@@ -437,10 +437,10 @@ Definition plain (o : wop) : bool := match o with WMark _ => false | _ => true e
 
 Lemma av_write_plain dbg cx v ops : av_write dbg cx v = Ok ops -> forallb plain ops = true.
 Proof.
-  destruct cx as [e be u uoff ents codes line lstr str rng loc].
+  destruct cx as [e be u uoff ents codes line lstr str rng loc lpv].
   destruct e as [ver fmt asz].
   intros H.
-  destruct v; unfold av_write in H; cbn [wc_enc wc_be wc_line wc_loc wc_rng wc_str wc_lstr] in H;
+  destruct v; unfold av_write in H; cbn [wc_enc wc_be wc_line wc_loc wc_rng wc_str wc_lstr wc_lpv] in H;
     revert H; unfold_asserts; case_ver ver; destruct fmt; intros H.
   all: binds; try discriminate.
   all: try match goal with H : match ?a with AConst _ => _ | ASym _ _ => _ end = _ |- _ => destruct a end.
@@ -490,17 +490,17 @@ Proof.
   split; congruence.
 Qed.
 
-Lemma calc_list_frame dbg e ch :
-  Forall (fun d => forall st st', calc dbg e d st = Ok st' -> calc_frame_stmt dbg e (die_ids d) st st') ch ->
-  forall st st', calc_list dbg e ch st = Ok st' -> calc_frame_stmt dbg e (dies_ids ch) st st'.
+Lemma calc_list_frame dbg e lpv ch :
+  Forall (fun d => forall st st', calc dbg e lpv d st = Ok st' -> calc_frame_stmt dbg e (die_ids d) st st') ch ->
+  forall st st', calc_list dbg e lpv ch st = Ok st' -> calc_frame_stmt dbg e (dies_ids ch) st st'.
 Proof.
   induction 1 as [|c r Hc Hr IH]; intros st st' H; cbn [calc_list] in H.
   - injection H as <-. repeat split; reflexivity.
   - binds. unfold dies_ids. cbn [flat_map]. eapply calc_frame_trans; [apply Hc; eassumption|apply IH; assumption].
 Qed.
 
-Lemma calc_frame dbg e : forall d st st',
-  calc dbg e d st = Ok st' -> calc_frame_stmt dbg e (die_ids d) st st'.
+Lemma calc_frame dbg e lpv : forall d st st',
+  calc dbg e lpv d st = Ok st' -> calc_frame_stmt dbg e (die_ids d) st st'.
 Proof.
   induction d as [id tag sib attrs ch IH] using die_ind2. intros st st' H.
   rewrite calc_unfold in H. binds.
@@ -513,14 +513,14 @@ Proof.
   destruct ch as [|c r].
   - injection H as <-. cbn [die_ids flat_map]. exact F1.
   - binds. injection H as <-.
-    assert (F2 := calc_list_frame dbg e _ IH _ _ E4).
+    assert (F2 := calc_list_frame dbg e lpv _ IH _ _ E4).
     assert (F := calc_frame_trans _ _ _ _ _ _ _ F1 F2).
     cbn [die_ids]. change (id :: flat_map die_ids (c :: r)) with ([id] ++ dies_ids (c :: r)).
     destruct F as [G1 [G2 G3]]. split; [exact G1|]. split; [exact G2|]. exact G3.
 Qed.
 
-Lemma calc_list_frame' dbg e ch st st' :
-  calc_list dbg e ch st = Ok st' -> calc_frame_stmt dbg e (dies_ids ch) st st'.
+Lemma calc_list_frame' dbg e lpv ch st st' :
+  calc_list dbg e lpv ch st = Ok st' -> calc_frame_stmt dbg e (dies_ids ch) st st'.
 Proof.
   apply calc_list_frame. apply Forall_forall. intros d _. apply calc_frame.
 Qed.
@@ -537,7 +537,7 @@ Definition agree_stmt (dbg : bool) (cx : wcx) (ids : list nat) (st st' : cst) (o
 
 Definition agree_die (dbg : bool) (cx : wcx) (d : die) : Prop :=
   forall st st' ops,
-    calc dbg (wc_enc cx) d st = Ok st' ->
+    calc dbg (wc_enc cx) (wc_lpv cx) d st = Ok st' ->
     write_die dbg cx d (cs_off st) = Ok ops ->
     agree_on (die_ids d) (wc_codes cx) (cs_codes st') ->
     NoDup (die_ids d) -> die_expr_ok d ->
@@ -560,7 +560,7 @@ Proof. intros H. change i with (fst (i, p)). now apply in_map. Qed.
 Lemma agree_list dbg cx ch :
   Forall (agree_die dbg cx) ch ->
   forall st st' ops,
-    calc_list dbg (wc_enc cx) ch st = Ok st' ->
+    calc_list dbg (wc_enc cx) (wc_lpv cx) ch st = Ok st' ->
     write_list dbg cx ch (cs_off st) = Ok ops ->
     agree_on (dies_ids ch) (wc_codes cx) (cs_codes st') ->
     NoDup (dies_ids ch) -> dies_expr_ok ch ->
@@ -571,12 +571,12 @@ Proof.
   - injection HC as <-. injection HW as <-. unfold agree_stmt. rewrite ops_len_nil. cbn [ops_marks map].
     split; [lia|]. split; [reflexivity|]. intros i p [].
   - binds. injection HW as <-.
-    match goal with H : calc _ _ c _ = Ok ?s |- _ => rename s into sA; rename H into EC end.
+    match goal with H : calc _ _ _ c _ = Ok ?s |- _ => rename s into sA; rename H into EC end.
     match goal with H : write_die _ _ c _ = Ok ?x |- _ => rename x into o; rename H into EW end.
     match goal with H : write_list _ _ r _ = Ok ?x |- _ => rename x into rest; rename H into EWL end.
     unfold dies_ids in *. cbn [flat_map] in *. rewrite ops_len_app in HB.
     destruct HX as [HX1 HX2].
-    assert (FR := calc_list_frame' _ _ _ _ _ HC). destruct FR as [_ [_ FR]].
+    assert (FR := calc_list_frame' _ _ _ _ _ _ HC). destruct FR as [_ [_ FR]].
     (* the first child *)
     assert (A1 : agree_stmt dbg cx (die_ids c) st sA o).
     { apply Hc; try assumption.
@@ -655,7 +655,7 @@ Proof.
     apply bind_ok_inv in HC. destruct HC as [off2 [Eoff2 HC]]. injection HC as <-.
     apply bind_ok_inv in HW. destruct HW as [cops [Ecops HW]].
     apply bind_ok_inv in HW. destruct HW as [sibb [Esibb HW]]. injection HW as <-.
-    assert (FR := calc_list_frame' _ _ _ _ _ Est2).
+    assert (FR := calc_list_frame' _ _ _ _ _ _ Est2).
     assert (code' = code) by (apply (Hcode st2 FR); reflexivity). subst code'.
     cbn [has_kids] in *. rewrite ?andb_true_r in *.
     set (w := wsz (wc_enc cx)) in *.
@@ -701,7 +701,7 @@ Proof.
 Qed.
 
 Theorem offsets_exact_lemma dbg cx root st0 st ops :
-  calc dbg (wc_enc cx) root st0 = Ok st ->
+  calc dbg (wc_enc cx) (wc_lpv cx) root st0 = Ok st ->
   wc_codes cx = cs_codes st ->
   write_die dbg cx root (cs_off st0) = Ok ops ->
   NoDup (die_ids root) -> die_expr_ok root ->
@@ -852,10 +852,10 @@ Lemma av_write_refw dbg cx v ops :
   av_write dbg cx v = Ok ops ->
   Forall (fun o => match o with WUnitRef _ w' => w' = wsz (wc_enc cx) | _ => True end) ops.
 Proof.
-  destruct cx as [e be u uoff ents codes line lstr str rng loc].
+  destruct cx as [e be u uoff ents codes line lstr str rng loc lpv].
   destruct e as [ver fmt asz].
   intros H.
-  destruct v; unfold av_write in H; cbn [wc_enc wc_be wc_line wc_loc wc_rng wc_str wc_lstr] in H;
+  destruct v; unfold av_write in H; cbn [wc_enc wc_be wc_line wc_loc wc_rng wc_str wc_lstr wc_lpv] in H;
     revert H; unfold_asserts; case_ver ver; destruct fmt; intros H.
   all: binds; try discriminate.
   all: try match goal with H : match ?a with AConst _ => _ | ASym _ _ => _ end = _ |- _ => destruct a end.
@@ -892,9 +892,7 @@ Proof.
   apply bind_ok_inv in H. destruct H as [o [Eo H]].
   unfold debug_info_offset in Eo.
   apply bind_ok_inv in Eo. destruct Eo as [u0 [Ea Eo]].
-  apply bind_ok_inv in Eo. destruct Eo as [x [Ex Eo]].
-  unfold idx_get, unwrap in Ex.
-  destruct (nth_error entries (id_idx id)) as [x'|] eqn:En; [|discriminate]. injection Ex as ->.
+  destruct (nth_error entries (id_idx id)) as [x|] eqn:En; [|injection Eo as <-; discriminate].
   destruct (x =? 0) eqn:Z; injection Eo as <-; [discriminate|].
   apply bind_ok_inv in H. destruct H as [r [Er H]]. injection H as <-.
   exists x. split; [reflexivity|]. split; [now apply N.eqb_neq|]. split.
@@ -902,20 +900,20 @@ Proof.
   - intros ->. apply dassert_ok in Ea; [|reflexivity]. symmetry. now apply Nat.eqb_eq.
 Qed.
 
-Lemma calc_nonzero_in_tree dbg e root st0 st i x :
-  calc dbg e root st0 = Ok st ->
+Lemma calc_nonzero_in_tree dbg e lpv root st0 st i x :
+  calc dbg e lpv root st0 = Ok st ->
   (forall j y, nth_error (cs_entries st0) j = Some y -> y = 0) ->
   nth_error (cs_entries st) i = Some x -> x <> 0 -> In i (die_ids root).
 Proof.
   intros HC HZ Hn Hx. destruct (in_dec Nat.eq_dec i (die_ids root)) as [Hi|Hi]; [exact Hi|].
-  destruct (calc_frame _ _ _ _ _ HC) as [_ [_ F]]. destruct (F i Hi) as [F1 _].
+  destruct (calc_frame _ _ _ _ _ _ HC) as [_ [_ F]]. destruct (F i Hi) as [F1 _].
   rewrite F1 in Hn. apply HZ in Hn. contradiction.
 Qed.
 
 (* every UnitRef placeholder ends up holding the unit-relative offset of the position at which the
    referenced entry was emitted *)
 Theorem refs_resolve_lemma dbg cx root st0 st ops pre post sec' (f : eid -> list byte) :
-  calc dbg (wc_enc cx) root st0 = Ok st ->
+  calc dbg (wc_enc cx) (wc_lpv cx) root st0 = Ok st ->
   wc_codes cx = cs_codes st ->
   write_die dbg cx root (cs_off st0) = Ok ops ->
   NoDup (die_ids root) -> die_expr_ok root ->
@@ -1269,11 +1267,11 @@ Proof. unfold fits, wsz. destruct (e_fmt64 e); reflexivity. Qed.
 Theorem unencodable_is_error_lemma dbg cx v er :
   av_unencodable cx v = Some er -> av_write dbg cx v = Err er.
 Proof.
-  destruct cx as [e be u uoff ents codes line lstr str rng loc].
+  destruct cx as [e be u uoff ents codes line lstr str rng loc lpv].
   destruct e as [ver fmt asz].
   unfold av_unencodable. cbn [wc_enc wc_line].
   destruct v; try discriminate; intros H; unfold av_write;
-    cbn [wc_enc wc_be wc_line wc_loc wc_rng wc_str wc_lstr]; unfold_asserts; case_ver ver; destruct fmt; asserts.
+    cbn [wc_enc wc_be wc_line wc_loc wc_rng wc_str wc_lstr wc_lpv]; unfold_asserts; case_ver ver; destruct fmt; asserts.
   all: try (exfalso; lia).
   all: try match goal with a : address |- _ => destruct a end.
   all: try match goal with r : dref |- _ => destruct r end.
@@ -1357,11 +1355,11 @@ Proof. intros H. assert (W := write_udata_fits be v size). now rewrite H in W. Q
 Theorem encodable_is_ok_lemma dbg cx v :
   av_typed cx v -> av_unencodable cx v = None -> exists ops, av_write dbg cx v = Ok ops.
 Proof.
-  destruct cx as [e be u uoff ents codes line lstr str rng loc].
+  destruct cx as [e be u uoff ents codes line lstr str rng loc lpv].
   destruct e as [ver fmt asz].
-  unfold av_unencodable, av_typed. cbn [wc_enc wc_line wc_loc wc_rng wc_str wc_lstr].
+  unfold av_unencodable, av_typed. cbn [wc_enc wc_line wc_loc wc_rng wc_str wc_lstr wc_lpv].
   destruct v; intros T H; unfold av_write;
-    cbn [wc_enc wc_be wc_line wc_loc wc_rng wc_str wc_lstr]; unfold_asserts; case_ver ver; destruct fmt; asserts.
+    cbn [wc_enc wc_be wc_line wc_loc wc_rng wc_str wc_lstr wc_lpv]; unfold_asserts; case_ver ver; destruct fmt; asserts.
   all: try (exfalso; lia).
   all: try match goal with a : address |- _ => destruct a end.
   all: try match goal with r : dref |- _ => destruct r end.
@@ -1393,18 +1391,18 @@ Proof.
        end.
   all: try (destruct T as [n0 [bs [E1 [E2 E3]]]]; rewrite E1; cbn [bind];
             destruct (write_uleb128_total n0 ltac:(lia)) as [b Eb]; rewrite Eb; cbn [bind]; rewrite E2; cbn [bind]; eauto).
-  all: unfold file_raw; cbn [e_ver]; destruct (ver <=? 4);
+  all: unfold file_raw; destruct (lpv <=? 4);
        [rewrite chk_add_ok by lia|]; cbn [bind];
        match goal with |- context [write_uleb128 ?x] =>
          destruct (write_uleb128_total x ltac:(lia)) as [b Eb]; rewrite Eb; cbn [bind]; eauto end.
 Qed.
 
 (* AttributeValue::size never panics on well-typed values, in either build mode *)
-Theorem av_size_no_panic_lemma dbg cx v : av_typed cx v -> av_size dbg (wc_enc cx) v <> Panic.
+Theorem av_size_no_panic_lemma dbg cx v : av_typed cx v -> av_size dbg (wc_enc cx) (wc_lpv cx) v <> Panic.
 Proof.
-  destruct cx as [e be u uoff ents codes line lstr str rng loc].
+  destruct cx as [e be u uoff ents codes line lstr str rng loc lpv].
   destruct e as [ver fmt asz].
-  unfold av_typed. cbn [wc_enc wc_line wc_loc wc_rng wc_str wc_lstr].
+  unfold av_typed. cbn [wc_enc wc_line wc_loc wc_rng wc_str wc_lstr wc_lpv].
   destruct v; intros T; unfold av_size; unfold_asserts; case_ver ver; destruct fmt; asserts.
   all: try (exfalso; lia).
   all: try discriminate.
@@ -1412,7 +1410,7 @@ Proof.
   all: try (rewrite chk_add_ok by lia; discriminate).
   all: try (destruct T as [n0 [bs [E1 [E2 E3]]]]; rewrite E1; cbn [bind];
             assert (U := uleb128_size_le n0); rewrite chk_add_ok by lia; discriminate).
-  all: destruct f as [i|]; unfold file_raw; cbn [e_ver]; [destruct (ver <=? 4); [rewrite chk_add_ok by lia|]|]; discriminate.
+  all: destruct f as [i|]; unfold file_raw; [destruct (lpv <=? 4); [rewrite chk_add_ok by lia|]|]; discriminate.
 Qed.
 
 (* AttributeValue::write never panics on well-typed values: it returns bytes or an error *)
@@ -1441,8 +1439,8 @@ Qed.
 
 (* a unit-relative reference to an entry that is not in the tree that gets written (deleted child, reserved
    but never added, orphan) never yields output *)
-Theorem dangling_ref_is_error_lemma dbg e root st0 st be unit unit_off w refs sec off id :
-  calc dbg e root st0 = Ok st ->
+Theorem dangling_ref_is_error_lemma dbg e lpv root st0 st be unit unit_off w refs sec off id :
+  calc dbg e lpv root st0 = Ok st ->
   (forall j y, nth_error (cs_entries st0) j = Some y -> y = 0) ->
   In (off, id) refs -> ~ In (id_idx id) (die_ids root) ->
   forall sec', patch_unit_refs dbg be unit unit_off (cs_entries st) w refs sec <> Ok sec'.
@@ -1644,7 +1642,7 @@ Definition av_raw (cx : wcx) (v : aval) : rval :=
   | AvEncoding x | AvDecimalSign x | AvEndianity x | AvAccessibility x | AvVisibility x | AvVirtuality x
   | AvLanguage x | AvAddressClass x | AvIdentifierCase x | AvCallingConvention x | AvInline x | AvOrdering x => RU x
   | AvFileIndex None => RU 0
-  | AvFileIndex (Some i) => RU (if e_ver e <=? 4 then wrapN 64 (i + 1) else i)
+  | AvFileIndex (Some i) => RU (if wc_lpv cx <=? 4 then wrapN 64 (i + 1) else i)
   end.
 
 (* documented precondition of AttributeValue::String ("must not include null bytes"); expressions: the
@@ -1665,10 +1663,10 @@ Proof.
   destruct C as [-> | [-> | [-> | ->]]]; destruct be; reflexivity.
 Qed.
 
-Lemma file_raw_val dbg e i r :
-  file_raw dbg e (Some i) = Ok r -> r = (if e_ver e <=? 4 then wrapN 64 (i + 1) else i).
+Lemma file_raw_val dbg lpv i r :
+  file_raw dbg lpv (Some i) = Ok r -> r = (if lpv <=? 4 then wrapN 64 (i + 1) else i).
 Proof.
-  unfold file_raw. destruct (e_ver e <=? 4); [|now intros H; injection H].
+  unfold file_raw. destruct (lpv <=? 4); [|now intros H; injection H].
   unfold chk_add, wrapN. destruct (i + 1 <? 2 ^ 64) eqn:L.
   - intros H. injection H as <-. apply N.ltb_lt in L. now rewrite N.mod_small.
   - destruct dbg; [discriminate|]. now intros H; injection H.
@@ -1724,11 +1722,11 @@ Theorem av_write_decodes dbg cx v ops rest :
               (match snd (av_form (wc_enc cx) v) with Some z => z | None => 0%Z end)
               (ops_bytes ops ++ rest) = Some (av_raw cx v, rest).
 Proof.
-  destruct cx as [e be u uoff ents codes line lstr str rng loc].
+  destruct cx as [e be u uoff ents codes line lstr str rng loc lpv].
   destruct e as [ver fmt asz].
   intros H X.
-  destruct v; unfold av_write in H; cbn [wc_enc wc_be wc_line wc_loc wc_rng wc_str wc_lstr] in *;
-    unfold av_raw; cbn [wc_enc wc_be wc_line wc_loc wc_rng wc_str wc_lstr];
+  destruct v; unfold av_write in H; cbn [wc_enc wc_be wc_line wc_loc wc_rng wc_str wc_lstr wc_lpv] in *;
+    unfold av_raw; cbn [wc_enc wc_be wc_line wc_loc wc_rng wc_str wc_lstr wc_lpv];
     revert H; unfold_asserts; case_ver ver; destruct fmt; asserts; intros H.
   all: try (exfalso; lia).
   all: cbn [snd].
@@ -1768,7 +1766,7 @@ Proof.
            rewrite take_n_blen; reflexivity
        end.
   all: try (cbn [app]; rewrite dec_cstr_app by exact X; reflexivity).
-  all: destruct f as [i|]; [apply file_raw_val in E; cbn [e_ver] in E; now subst a|cbn in E; now injection E as <-].
+  all: destruct f as [i|]; [apply file_raw_val in E; now subst a|cbn in E; now injection E as <-].
 Qed.
 
 (* ------------------------------------------------------------------ no panic in the two passes *)
@@ -1794,7 +1792,7 @@ Definition asize_ub (e : encoding) (v : aval) : N :=
   | _ => 10
   end.
 
-Lemma av_size_le dbg e v s : av_size dbg e v = Ok s -> s <= asize_ub e v.
+Lemma av_size_le dbg e lpv v s : av_size dbg e lpv v = Ok s -> s <= asize_ub e v.
 Proof.
   destruct e as [ver fmt asz]. intros H.
   destruct v; unfold av_size in H; revert H; unfold_asserts; case_ver ver; destruct fmt; asserts; intros H.
@@ -1848,15 +1846,15 @@ Proof. reflexivity. Qed.
 
 Lemma attrs_size_no_panic dbg cx : forall attrs acc,
   Forall (fun p => av_typed cx (snd p)) attrs -> acc + attrs_ub (wc_enc cx) attrs < 2 ^ 64 ->
-  attrs_size dbg (wc_enc cx) acc attrs <> Panic /\
-  (forall r, attrs_size dbg (wc_enc cx) acc attrs = Ok r -> r <= acc + attrs_ub (wc_enc cx) attrs).
+  attrs_size dbg (wc_enc cx) (wc_lpv cx) acc attrs <> Panic /\
+  (forall r, attrs_size dbg (wc_enc cx) (wc_lpv cx) acc attrs = Ok r -> r <= acc + attrs_ub (wc_enc cx) attrs).
 Proof.
   induction attrs as [|[n v] r IH]; intros acc T B; cbn [attrs_size attrs_ub] in *.
   - split; [discriminate|]. intros ? H. injection H as <-. lia.
   - inversion T as [|? ? T1 T2]; subst. cbn [snd] in T1.
     assert (NP := av_size_no_panic_lemma dbg cx v T1).
-    destruct (av_size dbg (wc_enc cx) v) as [s| | |] eqn:Es; try (split; [discriminate|intros; discriminate]); [|contradiction].
-    cbn [bind]. assert (Ls := av_size_le _ _ _ _ Es).
+    destruct (av_size dbg (wc_enc cx) (wc_lpv cx) v) as [s| | |] eqn:Es; try (split; [discriminate|intros; discriminate]); [|contradiction].
+    cbn [bind]. assert (Ls := av_size_le _ _ _ _ _ Es).
     rewrite chk_add_ok by lia. cbn [bind].
     destruct (IH (acc + s) T2) as [I1 I2]; [lia|]. split; [exact I1|].
     intros r0 H. specialize (I2 _ H). lia.
@@ -1896,23 +1894,23 @@ Definition ids_in_range (ids : list nat) (st : cst) : Prop :=
 Definition calc_np (dbg : bool) (cx : wcx) (d : die) : Prop :=
   forall st, die_typed cx d -> ids_in_range (die_ids d) st ->
     cs_off st + dsize_ub (wc_enc cx) d < 2 ^ 64 ->
-    calc dbg (wc_enc cx) d st <> Panic /\
-    (forall st', calc dbg (wc_enc cx) d st = Ok st' -> cs_off st' <= cs_off st + dsize_ub (wc_enc cx) d).
+    calc dbg (wc_enc cx) (wc_lpv cx) d st <> Panic /\
+    (forall st', calc dbg (wc_enc cx) (wc_lpv cx) d st = Ok st' -> cs_off st' <= cs_off st + dsize_ub (wc_enc cx) d).
 
 Lemma calc_list_np dbg cx ch :
   Forall (calc_np dbg cx) ch ->
   forall st, dies_typed cx ch -> ids_in_range (dies_ids ch) st ->
     cs_off st + dsizes_ub (wc_enc cx) ch < 2 ^ 64 ->
-    calc_list dbg (wc_enc cx) ch st <> Panic /\
-    (forall st', calc_list dbg (wc_enc cx) ch st = Ok st' -> cs_off st' <= cs_off st + dsizes_ub (wc_enc cx) ch).
+    calc_list dbg (wc_enc cx) (wc_lpv cx) ch st <> Panic /\
+    (forall st', calc_list dbg (wc_enc cx) (wc_lpv cx) ch st = Ok st' -> cs_off st' <= cs_off st + dsizes_ub (wc_enc cx) ch).
 Proof.
   induction 1 as [|c r Hc Hr IH]; intros st T R B; cbn [calc_list dsizes_ub dies_typed] in *.
   - split; [discriminate|]. intros ? H. injection H as <-. lia.
   - destruct T as [T1 T2]. unfold dies_ids in R. cbn [flat_map] in R.
     destruct (Hc st T1) as [N1 N2]; [intros i Hi; apply R; apply in_or_app; now left|lia|].
-    destruct (calc dbg (wc_enc cx) c st) as [sA| | |] eqn:EA; try (split; [discriminate|intros; discriminate]); [|contradiction].
+    destruct (calc dbg (wc_enc cx) (wc_lpv cx) c st) as [sA| | |] eqn:EA; try (split; [discriminate|intros; discriminate]); [|contradiction].
     cbn [bind]. specialize (N2 _ eq_refl).
-    destruct (calc_frame _ _ _ _ _ EA) as [L1 [L2 _]].
+    destruct (calc_frame _ _ _ _ _ _ EA) as [L1 [L2 _]].
     destruct (IH sA T2) as [I1 I2].
     + intros i Hi. destruct (R i) as [R1 R2]; [apply in_or_app; now right|]. rewrite L1, L2. now split.
     + lia.
@@ -1932,8 +1930,8 @@ Proof.
   cbn [bind]. destruct (abbrev_add (cs_abbrevs st) ab) as [code tab].
   destruct (set_nth_total id code _ R2) as [codes Ecodes]. rewrite Ecodes. cbn [bind].
   (* size of this entry *)
-  assert (Hsz : die_size dbg (wc_enc cx) (Die id tag sib attrs ch) code <> Panic /\
-                forall sz, die_size dbg (wc_enc cx) (Die id tag sib attrs ch) code = Ok sz ->
+  assert (Hsz : die_size dbg (wc_enc cx) (wc_lpv cx) (Die id tag sib attrs ch) code <> Panic /\
+                forall sz, die_size dbg (wc_enc cx) (wc_lpv cx) (Die id tag sib attrs ch) code = Ok sz ->
                            sz <= 18 + attrs_ub (wc_enc cx) attrs).
   { unfold die_size. assert (U := uleb128_size_le code).
     assert (W : wsz (wc_enc cx) <= 8) by (unfold wsz; destruct (e_fmt64 (wc_enc cx)); lia).
@@ -1944,7 +1942,7 @@ Proof.
     - cbn [bind]. destruct (attrs_size_no_panic dbg cx attrs (uleb128_size code) Ta) as [A1 A2]; [lia|].
       split; [exact A1|]. intros sz H. specialize (A2 _ H). lia. }
   destruct Hsz as [Hs1 Hs2].
-  destruct (die_size dbg (wc_enc cx) (Die id tag sib attrs ch) code) as [sz| | |] eqn:Esz;
+  destruct (die_size dbg (wc_enc cx) (wc_lpv cx) (Die id tag sib attrs ch) code) as [sz| | |] eqn:Esz;
     try (split; [discriminate|intros; discriminate]); [|contradiction].
   cbn [bind]. specialize (Hs2 _ eq_refl).
   rewrite chk_add_ok by lia. cbn [bind]. cbv zeta.
@@ -1955,7 +1953,7 @@ Proof.
   - destruct (calc_list_np dbg cx (c :: r) IH (mkCst (cs_off st + sz) ents tab codes) Tc) as [L1 L2].
     + intros i Hi. cbn [cs_entries cs_codes]. rewrite S3, T3. apply R. cbn [die_ids]. now right.
     + cbn [cs_off]. lia.
-    + destruct (calc_list dbg (wc_enc cx) (c :: r) (mkCst (cs_off st + sz) ents tab codes)) as [st2| | |] eqn:E2;
+    + destruct (calc_list dbg (wc_enc cx) (wc_lpv cx) (c :: r) (mkCst (cs_off st + sz) ents tab codes)) as [st2| | |] eqn:E2;
         try (split; [discriminate|intros; discriminate]); [|contradiction].
       cbn [bind]. specialize (L2 _ eq_refl). cbn [cs_off] in L2.
       rewrite chk_add_ok by lia. cbn [bind].
@@ -1966,10 +1964,10 @@ Qed.
 Lemma av_write_len_ub dbg cx v ops :
   av_write dbg cx v = Ok ops -> expr_ok v -> ops_len ops <= asize_ub (wc_enc cx) v.
 Proof.
-  destruct cx as [e be u uoff ents codes line lstr str rng loc]. cbn [wc_enc].
+  destruct cx as [e be u uoff ents codes line lstr str rng loc lpv]. cbn [wc_enc wc_lpv].
   destruct e as [ver fmt asz].
   intros H X.
-  destruct v; unfold av_write in H; unfold asize_ub; cbn [wc_enc wc_be wc_line wc_loc wc_rng wc_str wc_lstr e_asz] in *;
+  destruct v; unfold av_write in H; unfold asize_ub; cbn [wc_enc wc_be wc_line wc_loc wc_rng wc_str wc_lstr wc_lpv e_asz] in *;
     revert H; unfold_asserts; case_ver ver; destruct fmt; asserts; intros H.
   all: try (exfalso; lia).
   all: try match goal with H : match ?a with AConst _ => _ | ASym _ _ => _ end = _ |- _ => destruct a; [|discriminate] end.
@@ -2060,7 +2058,7 @@ Qed.
 
 Definition write_np (dbg : bool) (cx : wcx) (d : die) : Prop :=
   forall st st',
-    calc dbg (wc_enc cx) d st = Ok st' ->
+    calc dbg (wc_enc cx) (wc_lpv cx) d st = Ok st' ->
     agree_on (die_ids d) (wc_entries cx) (cs_entries st') ->
     agree_on (die_ids d) (wc_codes cx) (cs_codes st') ->
     (forall i c, nth_error (wc_codes cx) i = Some c -> c < 2 ^ 64) ->
@@ -2072,7 +2070,7 @@ Definition write_np (dbg : bool) (cx : wcx) (d : die) : Prop :=
 Lemma write_list_np dbg cx ch :
   Forall (write_np dbg cx) ch ->
   forall st st',
-    calc_list dbg (wc_enc cx) ch st = Ok st' ->
+    calc_list dbg (wc_enc cx) (wc_lpv cx) ch st = Ok st' ->
     agree_on (dies_ids ch) (wc_entries cx) (cs_entries st') ->
     agree_on (dies_ids ch) (wc_codes cx) (cs_codes st') ->
     (forall i c, nth_error (wc_codes cx) i = Some c -> c < 2 ^ 64) ->
@@ -2085,7 +2083,7 @@ Proof.
     cbn [calc_list write_list dsizes_ub dies_typed dies_expr_ok] in *; [discriminate|].
   apply bind_ok_inv in HC. destruct HC as [sA [EA HC]].
   destruct T as [T1 T2]. destruct X as [X1 X2]. unfold dies_ids in *. cbn [flat_map] in *.
-  assert (FR := calc_list_frame' _ _ _ _ _ HC). destruct FR as [_ [_ FR]].
+  assert (FR := calc_list_frame' _ _ _ _ _ _ HC). destruct FR as [_ [_ FR]].
   assert (NDc := NoDup_app_l _ _ ND). assert (NDr := NoDup_app_r _ _ ND).
   assert (Ac : agree_on (die_ids c) (wc_codes cx) (cs_codes sA)).
   { intros i Hi. rewrite HA by (apply in_or_app; now left). apply (FR i). eapply NoDup_app_disj; eassumption. }
@@ -2130,7 +2128,7 @@ Proof.
     - injection HC as <-. cbn [cs_entries cs_codes]. now split.
     - apply bind_ok_inv in HC. destruct HC as [st2 [E2 HC]].
       apply bind_ok_inv in HC. destruct HC as [off2 [_ HC]]. injection HC as <-. cbn [cs_entries cs_codes].
-      destruct (calc_list_frame' _ _ _ _ _ E2) as [_ [_ F]]. destruct (F id NDid) as [F1 F2].
+      destruct (calc_list_frame' _ _ _ _ _ _ E2) as [_ [_ F]]. destruct (F id NDid) as [F1 F2].
       rewrite F1, F2. cbn [cs_entries cs_codes]. now split. }
   destruct Hfin as [He Hc].
   rewrite write_die_unfold.
@@ -2204,10 +2202,10 @@ Lemma av_write_refs dbg cx v ops :
   | _ => forallb (fun o => negb (is_unit_ref o)) ops = true
   end.
 Proof.
-  destruct cx as [e be u uoff ents codes line lstr str rng loc].
+  destruct cx as [e be u uoff ents codes line lstr str rng loc lpv].
   destruct e as [ver fmt asz].
   intros H.
-  destruct v; unfold av_write in H; cbn [wc_enc wc_be wc_line wc_loc wc_rng wc_str wc_lstr] in *;
+  destruct v; unfold av_write in H; cbn [wc_enc wc_be wc_line wc_loc wc_rng wc_str wc_lstr wc_lpv] in *;
     revert H; unfold_asserts; case_ver ver; destruct fmt; asserts; intros H.
   all: try (exfalso; lia).
   all: try match goal with H : match ?a with AConst _ => _ | ASym _ _ => _ end = _ |- _ => destruct a; [|discriminate] end.
@@ -2563,17 +2561,17 @@ Proof.
   rewrite nth_error_app1; [exact H|]. apply nth_error_Some. congruence.
 Qed.
 
-Lemma calc_list_abbrevs_ext dbg e ch :
-  Forall (fun d => forall st st', calc dbg e d st = Ok st' -> tab_ext (cs_abbrevs st) (cs_abbrevs st')) ch ->
-  forall st st', calc_list dbg e ch st = Ok st' -> tab_ext (cs_abbrevs st) (cs_abbrevs st').
+Lemma calc_list_abbrevs_ext dbg e lpv ch :
+  Forall (fun d => forall st st', calc dbg e lpv d st = Ok st' -> tab_ext (cs_abbrevs st) (cs_abbrevs st')) ch ->
+  forall st st', calc_list dbg e lpv ch st = Ok st' -> tab_ext (cs_abbrevs st) (cs_abbrevs st').
 Proof.
   induction 1 as [|c r Hc Hr IH]; intros st st' H; cbn [calc_list] in H.
   - injection H as <-. apply tab_ext_refl.
   - binds. eapply tab_ext_trans; [eapply Hc; eassumption|eapply IH; eassumption].
 Qed.
 
-Lemma calc_abbrevs_ext dbg e : forall d st st',
-  calc dbg e d st = Ok st' -> tab_ext (cs_abbrevs st) (cs_abbrevs st').
+Lemma calc_abbrevs_ext dbg e lpv : forall d st st',
+  calc dbg e lpv d st = Ok st' -> tab_ext (cs_abbrevs st) (cs_abbrevs st').
 Proof.
   induction d as [id tag sib attrs ch IH] using die_ind2. intros st st' H.
   rewrite calc_unfold in H.
@@ -2588,12 +2586,12 @@ Proof.
   - injection H as <-. exact X.
   - apply bind_ok_inv in H. destruct H as [st2 [E2 H]].
     apply bind_ok_inv in H. destruct H as [off2 [_ H]]. injection H as <-. cbn [cs_abbrevs].
-    eapply tab_ext_trans; [exact X|]. apply (calc_list_abbrevs_ext dbg e _ IH _ _ E2).
+    eapply tab_ext_trans; [exact X|]. apply (calc_list_abbrevs_ext dbg e lpv _ IH _ _ E2).
 Qed.
 
 Definition codes_stmt (dbg : bool) (cx : wcx) (tabF : list abbrev) (d : die) : Prop :=
   forall st st',
-    calc dbg (wc_enc cx) d st = Ok st' ->
+    calc dbg (wc_enc cx) (wc_lpv cx) d st = Ok st' ->
     tab_ext (cs_abbrevs st') tabF ->
     agree_on (die_ids d) (wc_codes cx) (cs_codes st') ->
     NoDup (die_ids d) ->
@@ -2602,7 +2600,7 @@ Definition codes_stmt (dbg : bool) (cx : wcx) (tabF : list abbrev) (d : die) : P
 Lemma calc_list_codes_ok dbg cx tabF ch :
   Forall (codes_stmt dbg cx tabF) ch ->
   forall st st',
-    calc_list dbg (wc_enc cx) ch st = Ok st' ->
+    calc_list dbg (wc_enc cx) (wc_lpv cx) ch st = Ok st' ->
     tab_ext (cs_abbrevs st') tabF ->
     agree_on (dies_ids ch) (wc_codes cx) (cs_codes st') ->
     NoDup (dies_ids ch) ->
@@ -2611,9 +2609,9 @@ Proof.
   induction 1 as [|c r Hc Hr IH]; intros st st' H X A ND; cbn [calc_list codes_ok_list] in *; [exact I|].
   apply bind_ok_inv in H. destruct H as [sA [EA H]].
   unfold dies_ids in *. cbn [flat_map] in *.
-  assert (FR := calc_list_frame' _ _ _ _ _ H). destruct FR as [_ [_ FR]].
+  assert (FR := calc_list_frame' _ _ _ _ _ _ H). destruct FR as [_ [_ FR]].
   assert (XR : tab_ext (cs_abbrevs sA) (cs_abbrevs st')).
-  { apply (calc_list_abbrevs_ext dbg (wc_enc cx) r); [|exact H]. apply Forall_forall. intros d _. apply calc_abbrevs_ext. }
+  { apply (calc_list_abbrevs_ext dbg (wc_enc cx) (wc_lpv cx) r); [|exact H]. apply Forall_forall. intros d _. apply calc_abbrevs_ext. }
   split.
   - eapply Hc; [exact EA| | |eapply NoDup_app_l; eassumption].
     + eapply tab_ext_trans; eassumption.
@@ -2642,9 +2640,9 @@ Proof.
     eapply abbrev_lookup_ext; eassumption.
   - apply bind_ok_inv in H. destruct H as [st2 [E2 H]].
     apply bind_ok_inv in H. destruct H as [off2 [_ H]]. injection H as <-. cbn [cs_abbrevs cs_codes] in *.
-    assert (FR := calc_list_frame' _ _ _ _ _ E2). destruct FR as [_ [_ FR]].
+    assert (FR := calc_list_frame' _ _ _ _ _ _ E2). destruct FR as [_ [_ FR]].
     assert (X2 : tab_ext tab (cs_abbrevs st2)).
-    { apply (calc_list_abbrevs_ext dbg (wc_enc cx) (c :: r)) in E2; [exact E2|].
+    { apply (calc_list_abbrevs_ext dbg (wc_enc cx) (wc_lpv cx) (c :: r)) in E2; [exact E2|].
       apply Forall_forall. intros d _. apply calc_abbrevs_ext. }
     split.
     + exists code, ab. split.
@@ -2657,7 +2655,7 @@ Qed.
 (* ------------------------------------------------------------------ roundtrip of one unit's entries *)
 
 Theorem roundtrip_lemma dbg cx root st0 st ops pre post sec' (f : eid -> list byte) fuel rest :
-  calc dbg (wc_enc cx) root st0 = Ok st ->
+  calc dbg (wc_enc cx) (wc_lpv cx) root st0 = Ok st ->
   wc_codes cx = cs_codes st ->
   write_die dbg cx root (cs_off st0) = Ok ops ->
   NoDup (die_ids root) -> die_expr_ok root -> die_decodable root ->
@@ -2714,8 +2712,8 @@ Theorem unit_write_roundtrip_lemma dbg be uidx u p lstr str info abbrev_off out 
     tree_of (S (length ents2)) ents2 0 = Ok root /\
     let e := u_enc u in
     let pos0 := UnitWr.blen info + UnitWr.blen hdr in
-    let cx := mkWcx e be uidx (UnitWr.blen info) (cs_entries st) (cs_codes st) line lstr str rng loc in
-    calc dbg e root (mkCst pos0 (repeat 0 (length ents2)) [] (repeat 0 (length ents2))) = Ok st /\
+    let cx := mkWcx e be uidx (UnitWr.blen info) (cs_entries st) (cs_codes st) line lstr str rng loc (up_lp_version p) in
+    calc dbg e (up_lp_version p) root (mkCst pos0 (repeat 0 (length ents2)) [] (repeat 0 (length ents2))) = Ok st /\
     uo_entries out = cs_entries st /\ uo_abbrevs out = cs_abbrevs st /\ uo_unit_off out = UnitWr.blen info /\
     (NoDup (die_ids root) -> die_expr_ok root -> die_decodable root -> UnitWr.blen (uo_info out) < 2 ^ 64 ->
      forall f : eid -> list byte,
@@ -2757,7 +2755,7 @@ Proof.
   split; [exact Est|]. split; [reflexivity|]. split; [reflexivity|]. split; [reflexivity|].
   intros ND HX HD HB f Hf Hfl.
   set (pos0 := UnitWr.blen info + UnitWr.blen hdr) in *.
-  set (cx := mkWcx e be uidx (UnitWr.blen info) (cs_entries st) (cs_codes st) line lstr str rng loc) in *.
+  set (cx := mkWcx e be uidx (UnitWr.blen info) (cs_entries st) (cs_codes st) line lstr str rng loc (up_lp_version p)) in *.
   (* the length patch rewrites only the placeholder in the header *)
   unfold write_udata_at in Esec2. apply bind_ok_inv in Esec2. destruct Esec2 as [lenb [Elenb Esec2]].
   assert (Llen0 : UnitWr.blen len0 = w) by (eapply write_udata_len; eassumption).
@@ -2800,3 +2798,69 @@ Proof.
   split; [exact O3|].
   intros id w' Hi. destruct (R4 _ _ Hi) as [q [Q1 [_ Q3]]]. exists q. split; [exact Q1|exact Q3].
 Qed.
+
+(* ------------------------------------------------------------------ after the repairs c42c00d / c92c4f4 *)
+
+(* ... and it is reported as Err(InvalidReference), without a panic, also when the id lies beyond the
+   entries vector (reserved, never added, nothing added after it): the first such reference ends the write *)
+Lemma dassert_unit dbg unit id : (dbg = true -> id_unit id = unit) -> dassert dbg (Nat.eqb unit (id_unit id)) = Ok tt.
+Proof.
+  intros H. destruct dbg; [|reflexivity]. rewrite (H eq_refl), Nat.eqb_refl. apply dassert_true.
+Qed.
+
+Lemma unit_offset_dangling dbg e lpv root st0 st unit unit_off id :
+  calc dbg e lpv root st0 = Ok st ->
+  (forall j y, nth_error (cs_entries st0) j = Some y -> y = 0) ->
+  ~ In (id_idx id) (die_ids root) -> (dbg = true -> id_unit id = unit) ->
+  unit_offset dbg unit unit_off (cs_entries st) id = Ok None.
+Proof.
+  intros HC HZ Hn Hu. unfold unit_offset, debug_info_offset. rewrite (dassert_unit _ _ _ Hu). cbn [bind].
+  destruct (nth_error (cs_entries st) (id_idx id)) as [x|] eqn:En; [|reflexivity].
+  destruct (calc_frame _ _ _ _ _ _ HC) as [_ [_ F]]. destruct (F _ Hn) as [F1 _].
+  rewrite F1 in En. apply HZ in En. subst x. reflexivity.
+Qed.
+
+Theorem dangling_ref_invalid_reference_lemma dbg e lpv root st0 st be unit unit_off w r sec off id :
+  calc dbg e lpv root st0 = Ok st ->
+  (forall j y, nth_error (cs_entries st0) j = Some y -> y = 0) ->
+  ~ In (id_idx id) (die_ids root) -> (dbg = true -> id_unit id = unit) ->
+  patch_unit_refs dbg be unit unit_off (cs_entries st) w ((off, id) :: r) sec = Err WInvalidReference.
+Proof.
+  intros HC HZ Hn Hu. cbn [patch_unit_refs]. rewrite (unit_offset_dangling _ _ _ _ _ _ _ _ _ HC HZ Hn Hu). reflexivity.
+Qed.
+
+Lemma write_at_no_panic sec off bs : write_at sec off bs <> Panic.
+Proof. unfold write_at. destruct (_ <? off); [discriminate|]. destruct (_ <? _); discriminate. Qed.
+
+(* patching the unit-relative references never panics when the ids were issued by this unit *)
+Theorem patch_unit_refs_no_panic_lemma dbg be unit unit_off entries w : forall refs sec,
+  (forall off id, In (off, id) refs -> dbg = true -> id_unit id = unit) ->
+  (forall i x, nth_error entries i = Some x -> x <> 0 -> unit_off <= x) ->
+  patch_unit_refs dbg be unit unit_off entries w refs sec <> Panic.
+Proof.
+  induction refs as [|[off id] r IH]; intros sec Hu Hx; cbn [patch_unit_refs]; [discriminate|].
+  unfold unit_offset, debug_info_offset.
+  rewrite (dassert_unit dbg unit id (Hu off id (or_introl eq_refl))). cbn [bind].
+  destruct (nth_error entries (id_idx id)) as [x|] eqn:En; [|discriminate]. cbn [bind].
+  destruct (x =? 0) eqn:Z; [discriminate|]. apply N.eqb_neq in Z.
+  rewrite chk_sub_ok by (eapply Hx; eassumption). cbn [bind of_option].
+  unfold write_udata_at.
+  assert (Nu := write_udata_no_panic be (x - unit_off) w).
+  destruct (write_udata be (x - unit_off) w) as [b| | |]; try discriminate; [|contradiction]. cbn [bind].
+  assert (Na := write_at_no_panic sec off b).
+  destruct (write_at sec off b) as [sec1| | |]; try discriminate; [|contradiction]. cbn [bind].
+  apply IH; [|exact Hx]. intros o i Hi. apply (Hu o i). now right.
+Qed.
+
+(* what a reader using the line program's numbering finds for a written file index *)
+Definition file_of_raw (lpv raw : N) : option N :=
+  if lpv <=? 4 then (if raw =? 0 then None else Some (raw - 1)) else Some raw.
+
+Lemma file_index_roundtrip_lemma dbg lpv i r :
+  i + 1 < 2 ^ 64 -> file_raw dbg lpv (Some i) = Ok r -> file_of_raw lpv r = Some i.
+Proof.
+  intros B H. apply file_raw_val in H. unfold file_of_raw. destruct (lpv <=? 4); [|now subst].
+  unfold wrapN in H. rewrite N.mod_small in H by exact B. subst r.
+  replace (i + 1 =? 0) with false by (symmetry; apply N.eqb_neq; lia). f_equal. lia.
+Qed.
+
